@@ -83,6 +83,28 @@ func (w *world) sweepSignatures(tsa *c06.TSA) []sweepSig {
 			out = append(out, sweepSig{name, common.MediaCOSE, b})
 		}
 	}
+	// validly signed payloads whose descriptor is malformed: everything after integrity reads them
+	oddPayloads := map[string]string{
+		"payload-digest-no-colon":    `{"targetArtifact":{"mediaType":"application/vnd.oci.image.manifest.v1+json","digest":"0123456789abcdef","size":8}}`,
+		"payload-digest-empty":       `{"targetArtifact":{"mediaType":"application/vnd.oci.image.manifest.v1+json","digest":"","size":8}}`,
+		"payload-digest-missing":     `{"targetArtifact":{"mediaType":"application/vnd.oci.image.manifest.v1+json","size":8}}`,
+		"payload-digest-unknown-alg": `{"targetArtifact":{"mediaType":"m","digest":"md5:d41d8cd98f00b204e9800998ecf8427e","size":0}}`,
+		"payload-digest-colon-only":  `{"targetArtifact":{"mediaType":"m","digest":":","size":0}}`,
+		"payload-digest-short-hex":   `{"targetArtifact":{"mediaType":"m","digest":"sha256:abcd","size":0}}`,
+		"payload-size-negative":      `{"targetArtifact":{"mediaType":"m","digest":"` + target.Digest.String() + `","size":-1}}`,
+		"payload-target-null":        `{"targetArtifact":null}`,
+		"payload-empty-object":       `{}`,
+		"payload-annotations-null":   `{"targetArtifact":{"mediaType":"m","digest":"` + target.Digest.String() + `","size":8,"annotations":null}}`,
+		"payload-array":              `[]`,
+		"payload-not-json":           `not json`,
+	}
+	for name, pl := range oddPayloads {
+		for _, f := range []string{common.MediaJWS, common.MediaCOSE} {
+			if b, err := common.SignEnvelope(common.EnvOpts{Format: f, Chain: w.chain, Payload: []byte(pl), SigningTime: st}); err == nil {
+				out = append(out, sweepSig{name, f, b})
+			}
+		}
+	}
 	// other schemes / times
 	if b, err := common.SignEnvelope(common.EnvOpts{Chain: w.chain, Target: &target, Scheme: common.SchemeAuthority, SigningTime: st}); err == nil {
 		out = append(out, sweepSig{"signing-authority", common.MediaJWS, b})
@@ -136,6 +158,10 @@ func sweepManagers() []sweepPluginCase {
 		{"plugin-both-ok", withPlugin(&common.ScriptedPlugin{Metadata: meta("1.0.0", pluginfw.CapabilityTrustedIdentityVerifier, pluginfw.CapabilityRevocationCheckVerifier), VerifyResp: resp(all, okBoth)})},
 		{"plugin-identity-only", withPlugin(&common.ScriptedPlugin{Metadata: meta("1.0.0", pluginfw.CapabilityTrustedIdentityVerifier), VerifyResp: resp(all, okBoth)})},
 		{"plugin-revocation-only", withPlugin(&common.ScriptedPlugin{Metadata: meta("1.0.0", pluginfw.CapabilityRevocationCheckVerifier), VerifyResp: resp(all, okBoth)})},
+		{"plugin-processed-objects", withPlugin(&common.ScriptedPlugin{Metadata: meta("1.0.0", pluginfw.CapabilityTrustedIdentityVerifier, pluginfw.CapabilityRevocationCheckVerifier),
+			VerifyResp: resp([]any{"com.example.crit", map[string]any{"key": "com.example.crit"}, []any{"com.example.info"}, map[string]any{}, []any{}, true, nil, 1.5e300}, okBoth)})},
+		{"plugin-processed-nested-only", withPlugin(&common.ScriptedPlugin{Metadata: meta("1.0.0", pluginfw.CapabilityTrustedIdentityVerifier),
+			VerifyResp: resp([]any{[]any{[]any{"com.example.crit"}}, map[string]any{"a": map[string]any{"b": []any{1}}}}, okBoth)})},
 		{"plugin-nothing-processed", withPlugin(&common.ScriptedPlugin{Metadata: meta("1.0.0", pluginfw.CapabilityTrustedIdentityVerifier, pluginfw.CapabilityRevocationCheckVerifier), VerifyResp: resp(nil, okBoth)})},
 		{"plugin-empty-results", withPlugin(&common.ScriptedPlugin{Metadata: meta("1.0.0", pluginfw.CapabilityTrustedIdentityVerifier, pluginfw.CapabilityRevocationCheckVerifier), VerifyResp: resp(all, nil)})},
 		{"plugin-nil-result-entry", withPlugin(&common.ScriptedPlugin{Metadata: meta("1.0.0", pluginfw.CapabilityTrustedIdentityVerifier), VerifyResp: resp(all, map[pluginfw.Capability]*pluginfw.VerificationResult{pluginfw.CapabilityTrustedIdentityVerifier: nil})})},
@@ -263,6 +289,111 @@ func (w *world) sweepVerifier(c *common.Ctx, n int) {
 		}
 	}
 	var _ revocation.Validator = scripted(revresult.ResultOK)
+}
+
+// ---- sweep 1b: constructors offered INVALID documents -------------------------------------------
+//
+// A constructor must either refuse an invalid document or hand out a verifier that still never
+// panics: whatever it returns is exercised through every entry point.
+func (w *world) sweepConstructors(c *common.Ctx) {
+	ctx := context.Background()
+	good := trustpolicy.SignatureVerification{VerificationLevel: "strict"}
+	bads := map[string]trustpolicy.SignatureVerification{
+		"level-unknown-case":  {VerificationLevel: "Strict"},
+		"level-empty":         {},
+		"level-bogus":         {VerificationLevel: "bogus"},
+		"override-integrity":  {VerificationLevel: "strict", Override: map[trustpolicy.ValidationType]trustpolicy.ValidationAction{trustpolicy.TypeIntegrity: trustpolicy.ActionLog}},
+		"override-bad-action": {VerificationLevel: "audit", Override: map[trustpolicy.ValidationType]trustpolicy.ValidationAction{trustpolicy.TypeExpiry: "ignore"}},
+		"override-bad-type":   {VerificationLevel: "permissive", Override: map[trustpolicy.ValidationType]trustpolicy.ValidationAction{"everything": trustpolicy.ActionLog}},
+		"override-on-skip":    {VerificationLevel: "skip", Override: map[trustpolicy.ValidationType]trustpolicy.ValidationAction{trustpolicy.TypeRevocation: trustpolicy.ActionSkip}},
+		"timestamp-option":    {VerificationLevel: "strict", VerifyTimestamp: "sometimes"},
+	}
+	ociDoc := func(sv trustpolicy.SignatureVerification, stores, ids []string) *trustpolicy.OCIDocument {
+		return &trustpolicy.OCIDocument{Version: "1.0", TrustPolicies: []trustpolicy.OCITrustPolicy{{Name: "c12", RegistryScopes: []string{"*"},
+			SignatureVerification: sv, TrustStores: stores, TrustedIdentities: ids}}}
+	}
+	blobDoc := func(sv trustpolicy.SignatureVerification, stores, ids []string) *trustpolicy.BlobDocument {
+		return &trustpolicy.BlobDocument{Version: "1.0", TrustPolicies: []trustpolicy.BlobTrustPolicy{{Name: "c12",
+			SignatureVerification: sv, TrustStores: stores, TrustedIdentities: ids}}}
+	}
+	sig, err := common.SignEnvelope(common.EnvOpts{Chain: w.chain, Target: &target})
+	if err != nil {
+		panic(err)
+	}
+	type docs struct {
+		label string
+		oci   *trustpolicy.OCIDocument
+		blob  *trustpolicy.BlobDocument
+	}
+	stores, ids := []string{"ca:c12"}, []string{"*"}
+	var cases []docs
+	for name, bad := range bads {
+		cases = append(cases,
+			docs{"oci-valid+blob-" + name, ociDoc(good, stores, ids), blobDoc(bad, stores, ids)},
+			docs{"oci-" + name + "+blob-valid", ociDoc(bad, stores, ids), blobDoc(good, stores, ids)},
+			docs{"oci-" + name + "-only", ociDoc(bad, stores, ids), nil},
+			docs{"blob-" + name + "-only", nil, blobDoc(bad, stores, ids)},
+			docs{"both-" + name, ociDoc(bad, stores, ids), blobDoc(bad, stores, ids)})
+	}
+	// structurally broken documents
+	cases = append(cases,
+		docs{"oci-valid+blob-no-statements", ociDoc(good, stores, ids), &trustpolicy.BlobDocument{Version: "1.0"}},
+		docs{"oci-no-statements+blob-valid", &trustpolicy.OCIDocument{Version: "1.0"}, blobDoc(good, stores, ids)},
+		docs{"oci-valid+blob-no-stores", ociDoc(good, stores, ids), blobDoc(good, nil, ids)},
+		docs{"oci-no-identities+blob-valid", ociDoc(good, stores, nil), blobDoc(good, stores, ids)},
+		docs{"oci-valid+blob-bad-version", ociDoc(good, stores, ids), &trustpolicy.BlobDocument{Version: "9", TrustPolicies: blobDoc(good, stores, ids).TrustPolicies}})
+	type ctor struct {
+		label string
+		make  func(d docs, store *common.MemStore) (any, error)
+	}
+	ctors := []ctor{
+		{"NewVerifierWithOptions", func(d docs, st *common.MemStore) (any, error) {
+			return verifier.NewVerifierWithOptions(st, verifier.VerifierOptions{OCITrustPolicy: d.oci, BlobTrustPolicy: d.blob})
+		}},
+		{"New(deprecated)", func(d docs, st *common.MemStore) (any, error) {
+			if d.oci == nil {
+				return nil, errors.New("not applicable")
+			}
+			return verifier.New(d.oci, st, nil)
+		}},
+		{"NewWithOptions(deprecated)", func(d docs, st *common.MemStore) (any, error) {
+			if d.oci == nil {
+				return nil, errors.New("not applicable")
+			}
+			return verifier.NewWithOptions(d.oci, st, nil, verifier.VerifierOptions{BlobTrustPolicy: d.blob})
+		}},
+	}
+	for _, d := range cases {
+		for _, ct := range ctors {
+			d, ct := d, ct
+			label := "constructor sweep: " + ct.label + " | " + d.label
+			in := Input{Entry: "vVerify", OCI: "enforce", Blob: "enforce", Manager: false, Sig: "valid", Fuzz: true, Label: label}
+			p := w.guard(label, func() {
+				store := common.NewMemStore()
+				store.Certs["ca:c12"] = []*x509.Certificate{w.chain.Root().Cert}
+				v, err := ct.make(d, store)
+				if err != nil || v == nil {
+					return // refused: fine
+				}
+				if ov, ok := v.(notation.Verifier); ok {
+					ov.Verify(ctx, target, sig, notation.VerifierVerifyOptions{ArtifactReference: ref + "@" + target.Digest.String(), SignatureMediaType: common.MediaJWS})
+				}
+				if bv, ok := v.(notation.BlobVerifier); ok {
+					gen := func(a digest.Algorithm) (ocispec.Descriptor, error) {
+						return ocispec.Descriptor{Digest: a.FromBytes(blob), Size: int64(len(blob))}, nil
+					}
+					bv.VerifyBlob(ctx, gen, sig, notation.BlobVerifierVerifyOptions{SignatureMediaType: common.MediaJWS, TrustPolicyName: "c12"})
+				}
+				if sk, ok := v.(interface {
+					SkipVerify(context.Context, notation.VerifierVerifyOptions) (bool, *trustpolicy.VerificationLevel, error)
+				}); ok {
+					sk.SkipVerify(ctx, notation.VerifierVerifyOptions{ArtifactReference: ref + "@" + target.Digest.String()})
+				}
+			})
+			c.Emit(in, Obs{Panicked: p, Consistent: !p})
+			c.Count("sweep=constructors")
+		}
+	}
 }
 
 // ---- sweep 2: hostile registry content ----------------------------------------------------------
